@@ -189,11 +189,26 @@ def pax_hostile_archives(r, n):
             recs = tarmodel._pax_record(b"GNU.sparse.size", r.choice(EXTREME + SMALL) or b"0") + tarmodel._pax_record(b"GNU.sparse.numblocks", r.choice(EXTREME) or b"1") + \
                 tarmodel._pax_record(b"GNU.sparse.map", m)
             out.append(("pax-sparse-map", "map=%r" % m, member(recs) + tail))
-        elif k == 3:    # sparse 1.0: numbers in the data area
-            m = (r.choice(EXTREME) or b"1") + b"\n" + b"".join((r.choice(EXTREME) or b"0") + b"\n" for _ in range(r.choice([1, 2, 4])))
+        elif k == 3:    # sparse 1.0: the map lives in the data area: count line, then offset/size lines, NUL padded to 512
+            if r.random() < 0.5:
+                m = (r.choice(EXTREME) or b"1") + b"\n" + b"".join((r.choice(EXTREME) or b"0") + b"\n" for _ in range(r.choice([1, 2, 4])))
+            else:
+                # well-formed numbers, but the announced count and the lines that follow disagree (too few / too many / exact), the
+                # map ends exactly at / just before / just after a 512 byte boundary, and NULs, text or digits follow it
+                cnt = r.choice([1, 2, 3, 5, 40, 300])
+                have = r.choice([0, 1, 2 * cnt - 1, 2 * cnt, 2 * cnt + 1, cnt])
+                nums = [b"%d" % r.choice([0, 1, 512, 4096, 100000]) for _ in range(have)]
+                m = b"%d\n" % cnt + b"".join(x + b"\n" for x in nums)
+                if r.random() < 0.4:
+                    want = r.choice([511, 512, 513, 1023, 1024])
+                    if len(m) < want:
+                        m = m[:-1] + b"0" * 0 + b"\n"
+                        pad = want - len(m)
+                        m = b"%0*d\n" % (max(1, pad - 1 + len(b"%d" % cnt)), cnt) + m[len(b"%d\n" % cnt):] if pad > 0 else m
             recs = tarmodel._pax_record(b"GNU.sparse.major", b"1") + tarmodel._pax_record(b"GNU.sparse.minor", b"0") + \
                 tarmodel._pax_record(b"GNU.sparse.name", b"sp") + tarmodel._pax_record(b"GNU.sparse.realsize", r.choice(EXTREME + SMALL) or b"0")
-            out.append(("pax-sparse-1.0", "map %r" % m[:60], member(recs, data=tarmodel._pad(m) + body) + tail))
+            follow = r.choice([body, b"\0" * 1536, b"7" * 1100, b"\n" * 700 + body])
+            out.append(("pax-sparse-1.0", "map %r" % m[:60], member(recs, data=tarmodel._pad(m) + follow) + tail))
         elif k == 4:    # header size field: octal extremes and base-256
             sf = r.choice([b"77777777777\0", b"\x80" + b"\xff" * 11, b"\xff" * 12, b"\x80" + b"\0" * 3 + b"\xff" * 8, b"\x80" + b"\0" * 10 + b"\x01",
                            b"99999999999\0", b"           \0", b"-0000000001\0"])
